@@ -164,7 +164,7 @@ def conclude(prop: str, check: Any, tier: str, seed: int, specs: List[Dict[str, 
     distinct_extra = 0
     if os.environ.get('VERIF_VERBOSE'):
         for spec, res in zip(specs, results):
-            print(f'  shard {res["shard"]} kind={spec.get("kind")} rc={res["rc"]} wall={res["wall_s"]:.1f}s')
+            print(f'  shard {res["shard"]} kind={spec.get("kind")} rc={res["rc"]} wall={res["wall_s"]:.1f}s peak_rss={res.get("peak_rss_mb")}MB')
     for spec, res in zip(specs, results):
         if not res.get('completed'):
             crash = getattr(check, 'shard_crash', None)
